@@ -4,13 +4,56 @@ from vlib import common as C
 from vlib.simlib import build_sim_harness
 from props import c11_oracle as O
 
+MANIFEST = {
+    "text": "Lean theorems about M, the transcription of libcoap's observer handling (coap_add_observer, the notify loop with "
+            "NSTART back-pressure and the NON/CON choice, every removal path, resource deletion, retransmission give-up, idle "
+            "session reclaim): reregistration_replaces by induction over ALL event sequences (no two entries of a session "
+            "with one token or one cache key); observe_strictly_increasing (24-bit serial arithmetic, < 2^23 changes between two "
+            "values, across the wrap); every_sixth_con over the extracted COAP_OBS_MAX_NON; notification_per_observer(_loop), "
+            "latest_eventually_notified (no lost wake-up; fairness hypothesis explicit), no_notification_after_cancel and its "
+            "siblings for error response / session loss / resource deletion, notes_only_to_listed. M is tied to the compiled "
+            "code by exact trace equality on an H-sim harness (real server context, 1..3 resources, 1..4 real client "
+            "contexts, virtual clock, scripted network): every datagram, every subscriber list, counter, flag, session "
+            "ref/con_active/tx_mid and send-queue deadline after every event; the implementation's trace is in addition "
+            "judged directly against the property by an oracle that never looks at M.",
+    "note": "partial: notification bodies needing block-wise transfer rely on C09 (not exercised here); the per-observer "
+            "ordering across the dirty flags and the reference-count equation ref = entries + queued nodes are checked on every "
+            "event of every history by T2/the oracle, their Lean statements are the local lemmas + "
+            "session_alive_while_observed_partial; open finding rst_of_superseded_notification_ignored. Trusted: Lean kernel "
+            "(+ propext, Classical.choice, Quot.sound), T1 extractor, harness/observe.c + sim_core.h, generators, the oracle, "
+            "the hand transcription M (checked on the cases run only); SHA-256 cache key assumed injective.",
+    "design_ref": "DESIGN.md §4 C11, design/C11.md",
+}
 LEAN_MODULES = ["CoapVerif.Props.C11"]
 NAMESPACE = "Coap.C11"
-REQUIRED_THEOREMS = []
-RULE = "tbd"
-TRUSTED_BASE = []
-ASSUMPTIONS = []
-SPEC_DECISIONS = []
+REQUIRED_THEOREMS = ["reregistration_replaces", "observe_strictly_increasing", "every_sixth_con", "notification_per_observer",
+                     "notification_per_observer_loop", "latest_eventually_notified", "no_notification_after_cancel",
+                     "no_notification_after_error_response", "no_notification_after_session_loss",
+                     "no_notification_after_resource_deletion", "notes_only_to_listed", "obsNext_matches_code",
+                     "constants_in_range", "reclaim_keeps_referenced"]
+RULE = ("event histories (8..90 events + optional fair tail) over 1..3 observable resources (default / NOTIFY_CON / NOTIFY_NON / "
+        "NOTIFY_NON_ALWAYS, Observe counter started at 0, mid-range, and just below 2^23 / 2^24 so that it wraps) and 1..4 real "
+        "clients: register / re-register (same token, other token same query, other query) / Observe=1 cancel / plain GET with CON "
+        "and NON requests, bursts of changes between I/O steps, I/O steps, time advances across every retransmission deadline and "
+        "the idle session timeout, ACK or RST of the k-th most recent notification (never = loss, later = delay, again = "
+        "duplicate), handler starts answering 4.04, server-side session loss, resource deletion; non-trivial = a history in which "
+        "the server sent at least one notification")
+TRUSTED_BASE = ["Lean 4.33 kernel; axioms allowed: propext, Classical.choice, Quot.sound (audited per theorem each run)",
+                "T1 extractor extract/obsconst.c (constants as compiled, the counter's successor function by evaluation)",
+                "harness/observe.c on harness/sim_core.h (virtual clock, scripted network), generators, string comparison",
+                "props/c11_oracle.py: the property judged on the implementation's trace",
+                "M (CoapVerif/Model/Observe.lean) is a hand transcription; checked against the compiled code only on the cases run"]
+ASSUMPTIONS = ["the observe cache key (SHA-256 over the request's cache-key options) is injective on the option lists used",
+               "allocation failures and send errors inside the notify loop are not modelled (C18)",
+               "no block-wise notification bodies (C09), UDP only, one endpoint, NSTART = 1 as extracted",
+               "a token used by a client on two resources at once, or re-used with another query, makes 'the observation' ambiguous: "
+               "the oracle then follows the server's table for that token (the tie M = I still covers it)",
+               "compiled Lean definitions agree with the kernel's reading of them"]
+SPEC_DECISIONS = ["D8 every_sixth_con is stated for resources without COAP_RESOURCE_FLAGS_NOTIFY_NON_ALWAYS",
+                  "D13 a (re-)registration response carries the counter's current value: it may equal the neighbouring notification's "
+                  "number iff no change was signalled in between; strictness is required among change notifications",
+                  "D14 a Reset counts for the current registration of a token if it names a notification sent under it, or any "
+                  "Confirmable datagram with that token the server is still retransmitting"]
 
 
 def extract(ctx):
@@ -201,3 +244,24 @@ def shrink(ctx, case):
                 break
             chunk //= 2
     return best
+
+
+def classify(c):
+    i = c["impl"] or ""
+    k = []
+    if " n" in i: k.append("notified")
+    if ":C:" in i: k.append("con")
+    if " x" in i: k.append("rtx")
+    if ".1." in i: pass
+    return "+".join(k) or "quiet"
+
+
+def search(ctx, tie_breaks, proof):
+    """more histories around the disagreeing ones: same header, event lists truncated / extended with fair tails, plus fresh ones"""
+    out = []
+    for c in tie_breaks[:30]:
+        w = c["input"].split()
+        for cut in range(5, len(w) + 1, max(1, len(w) // 12)):
+            out.append(" ".join(w[:cut] + ["io", "io", "io"]))
+    out += [gen_history(ctx.rng) for _ in range(4000)]
+    return out
